@@ -112,7 +112,7 @@ theorem runTx_eq (c : Cfg) (p : List Event) (g : List (List Event)) (stmts : Lis
 /-- Under the exclusion - in a transaction request unconditionally, otherwise when no statement
 fails after touching rows - the delivered events are exactly the committed row changes of the
 matching tables, in order: operation, table, row ids and values are those of the change
-(`convert` keeps the change's identity). For every configuration and every statement list. -/
+(`convert` is the transcription of convertFn: see `convert_describes_change`). For every configuration and every statement list. -/
 theorem events_equal_committed_changes_partial (c : Cfg) (tx : Bool) (stmts : List Stmt)
     (hw : WellFormed stmts) (hx : tx = true ∨ failsAfterRows stmts = false) :
     delivered (request c tx stmts) = (committedChanges tx stmts).filterMap (convert c) := by
@@ -153,22 +153,33 @@ theorem events_equal_committed_changes_partial (c : Cfg) (tx : Bool) (stmts : Li
           simp
 
 /-- witness: the failed first statement's row 3 is delivered with the second statement's commit -/
+def ins (t : String) (id : Nat) (rowid : Int) (row : Row) : Change :=
+  { table := t, id := id, op := .insert, newRowID := rowid, new := row }
+
+def insEv (t : String) (id : Nat) (rowid : Int) (row : Option Row) : Event :=
+  { table := t, id := id, op := .insert, newRowId := rowid, newRow := row }
+
 theorem events_phantom_witness :
-    delivered (request ⟨false, none⟩ false [⟨[⟨"t", 3⟩], false, true⟩, ⟨[⟨"t", 4⟩], true, true⟩]) =
-      [⟨"t", 3, true⟩, ⟨"t", 4, true⟩] ∧
-    (committedChanges false [⟨[⟨"t", 3⟩], false, true⟩, ⟨[⟨"t", 4⟩], true, true⟩]).filterMap (convert ⟨false, none⟩) =
-      [⟨"t", 4, true⟩] := by decide
+    delivered (request ⟨false, none⟩ false
+        [⟨[ins "t" 3 503 [.int 1]], false, true⟩, ⟨[ins "t" 4 7 [.text "a"]], true, true⟩]) =
+      [insEv "t" 3 503 (some [.int 1]), insEv "t" 4 7 (some [.text "a"])] ∧
+    (committedChanges false
+        [⟨[ins "t" 3 503 [.int 1]], false, true⟩, ⟨[ins "t" 4 7 [.text "a"]], true, true⟩]).filterMap
+        (convert ⟨false, none⟩) =
+      [insEv "t" 4 7 (some [.text "a"])] := by decide
 
 theorem events_equal_committed_changes_full_is_false : ¬ events_equal_committed_changes_full := by
   intro h
-  have := h ⟨false, none⟩ false [⟨[⟨"t", 3⟩], false, true⟩, ⟨[⟨"t", 4⟩], true, true⟩]
+  have := h ⟨false, none⟩ false
+    [⟨[ins "t" 3 503 [.int 1]], false, true⟩, ⟨[ins "t" 4 7 [.text "a"]], true, true⟩]
     (by intro s hs hwr; simp at hs; rcases hs with h | h <;> subst h <;> simp at hwr)
   rw [events_phantom_witness.1, events_phantom_witness.2] at this
-  simp at this
+  revert this
+  decide
 
 example : delivered (request ⟨false, some ["t1"]⟩ true
-    [⟨[⟨"t1", 1⟩, ⟨"t2", 2⟩], true, true⟩, ⟨[], true, false⟩, ⟨[⟨"t1", 3⟩], true, true⟩]) =
-    [⟨"t1", 1, true⟩, ⟨"t1", 3, true⟩] := by decide
+    [⟨[ins "t1" 1 1 [.null], ins "t2" 2 1 []], true, true⟩, ⟨[], true, false⟩, ⟨[ins "t1" 3 2 [.blob [0, 255]]], true, true⟩]) =
+    [insEv "t1" 1 1 (some [.null]), insEv "t1" 3 2 (some [.blob [0, 255]])] := by decide
 
 /-! ### row-ids-only and the table filter: unconditional -/
 
@@ -234,46 +245,96 @@ theorem request_inv (c : Cfg) (tx : Bool) (stmts : List Stmt) : FromConvert c (r
     · exact commit_inv c _ this
     · exact this
 
-theorem convert_spec (c : Cfg) (ch : Change) (ev : Event) (h : convert c ch = some ev) :
-    ev.table = ch.table ∧ ev.id = ch.id ∧ ev.values = !c.idsOnly ∧
-    (∀ ts, c.tables = some ts → ev.table ∈ ts) := by
+/-- What `convertFn` puts into an event, for a change of a table the filter lets through: the
+operation and table of the change; the new row id for INSERT, both for UPDATE, the old one for
+DELETE; and - unless in row-ids-only mode - the OLD row exactly as SQLite reports it for UPDATE and
+DELETE and the NEW row exactly as SQLite reports it for INSERT and UPDATE (nothing for the side that
+does not exist). In row-ids-only mode no column values at all. -/
+theorem convert_describes_change (c : Cfg) (d : Change) (ev : Event) (h : convert c d = some ev)
+    (hop : ∀ k, d.op ≠ .unknown k) :
+    ev.table = d.table ∧ ev.id = d.id ∧ ev.op = d.op ∧ ev.error = false ∧
+    (d.op = .insert → ev.newRowId = d.newRowID ∧ ev.oldRowId = 0) ∧
+    (d.op = .update → ev.newRowId = d.newRowID ∧ ev.oldRowId = d.oldRowID) ∧
+    (d.op = .delete → ev.oldRowId = d.oldRowID ∧ ev.newRowId = 0) ∧
+    (c.idsOnly = true → ev.oldRow = none ∧ ev.newRow = none) ∧
+    (c.idsOnly = false →
+      ev.oldRow = (if d.op = .insert then none else some d.old) ∧
+      ev.newRow = (if d.op = .delete then none else some d.new)) := by
   unfold convert at h
-  cases hc : c.tables with
-  | none => simp [hc] at h; subst h; simp
-  | some ts =>
-    simp only [hc] at h
-    split at h
-    · rename_i hm
-      cases h
-      refine ⟨rfl, rfl, rfl, fun ts' hts => ?_⟩
-      cases hts
-      simpa using hm
-    · cases h
+  by_cases hm : tableMatches c d.table = true
+  · simp only [hm, Bool.not_true, Bool.false_eq_true, if_false] at h
+    cases hd : d.op with
+    | unknown k => exact absurd hd (hop k)
+    | insert => cases hi : c.idsOnly <;> simp [baseEvent, withRows, hd, hi] at h <;> subst h <;> simp [hd]
+    | update => cases hi : c.idsOnly <;> simp [baseEvent, withRows, hd, hi] at h <;> subst h <;> simp [hd]
+    | delete => cases hi : c.idsOnly <;> simp [baseEvent, withRows, hd, hi] at h <;> subst h <;> simp [hd]
+  · simp [hm] at h
 
-/-- In row-ids-only mode no delivered event carries column values - and otherwise every one
-does - for every request, failing statements and phantom events included. -/
-theorem ids_only_has_no_values (c : Cfg) (tx : Bool) (stmts : List Stmt) :
-    ∀ ev ∈ delivered (request c tx stmts), ev.values = !c.idsOnly := by
+theorem convert_filter (c : Cfg) (d : Change) (ev : Event) (h : convert c d = some ev) :
+    ev.table = d.table ∧ ∀ ts, c.tables = some ts → ev.table ∈ ts := by
+  unfold convert at h
+  by_cases hm : tableMatches c d.table = true
+  · simp only [hm, Bool.not_true, Bool.false_eq_true, if_false] at h
+    have ht : ev.table = d.table := by
+      cases hd : d.op <;> cases hi : c.idsOnly <;> simp [baseEvent, withRows, hd, hi] at h <;> subst h <;> rfl
+    refine ⟨ht, fun ts hts => ?_⟩
+    rw [ht]
+    simpa [tableMatches, hts] using hm
+  · simp [hm] at h
+
+theorem convert_idsOnly (c : Cfg) (d : Change) (ev : Event) (h : convert c d = some ev)
+    (hi : c.idsOnly = true) : ev.oldRow = none ∧ ev.newRow = none := by
+  unfold convert at h
+  by_cases hm : tableMatches c d.table = true
+  · simp only [hm, Bool.not_true, Bool.false_eq_true, if_false] at h
+    cases hd : d.op <;> simp [baseEvent, hd, hi] at h <;> subst h <;> simp
+  · simp [hm] at h
+
+/-- In row-ids-only mode no delivered event carries column values, for every request - failing
+statements and phantom events included. Proved from the transcription of `convertFn` (the old/new
+rows are never read in that mode). -/
+theorem ids_only_has_no_values (c : Cfg) (tx : Bool) (stmts : List Stmt) (hi : c.idsOnly = true) :
+    ∀ ev ∈ delivered (request c tx stmts), ev.oldRow = none ∧ ev.newRow = none := by
   intro ev hev
   obtain ⟨ch, hc⟩ := request_inv c tx stmts ev (Or.inr hev)
-  exact (convert_spec c ch ev hc).2.2.1
+  exact convert_idsOnly c ch ev hc hi
 
 /-- With a table filter only matching tables appear, for every request. -/
 theorem filter_only_matching_tables (c : Cfg) (tx : Bool) (stmts : List Stmt) (ts : List String)
     (hf : c.tables = some ts) : ∀ ev ∈ delivered (request c tx stmts), ev.table ∈ ts := by
   intro ev hev
   obtain ⟨ch, hc⟩ := request_inv c tx stmts ev (Or.inr hev)
-  exact (convert_spec c ch ev hc).2.2.2 ts hf
+  exact (convert_filter c ch ev hc).2 ts hf
 
-/-- … and a matching table's committed change is never filtered out -/
-theorem filter_keeps_matching (c : Cfg) (ch : Change)
-    (h : ∀ ts, c.tables = some ts → ch.table ∈ ts) : convert c ch = some ⟨ch.table, ch.id, !c.idsOnly⟩ := by
+/-- every delivered event describes some row change SQLite reported, with exactly its operation,
+table, row ids and (outside row-ids-only mode) before/after rows -/
+theorem delivered_events_describe_reported_changes (c : Cfg) (tx : Bool) (stmts : List Stmt) :
+    ∀ ev ∈ delivered (request c tx stmts), ∃ d, convert c d = some ev :=
+  fun ev hev => request_inv c tx stmts ev (Or.inr hev)
+
+/-- … and a matching table's change is never filtered out -/
+theorem filter_keeps_matching (c : Cfg) (d : Change)
+    (h : ∀ ts, c.tables = some ts → d.table ∈ ts) : (convert c d).isSome = true := by
+  have hm : tableMatches c d.table = true := by
+    unfold tableMatches
+    cases hc : c.tables with
+    | none => rfl
+    | some ts => simpa using h ts hc
   unfold convert
-  cases hc : c.tables with
-  | none => rfl
-  | some ts => simp [h ts hc]
+  simp only [hm, Bool.not_true, Bool.false_eq_true, if_false]
+  cases baseEvent d <;> cases c.idsOnly <;> simp
 
-example : delivered (request ⟨true, some ["t1"]⟩ false [⟨[⟨"t1", 1⟩, ⟨"t2", 2⟩], true, true⟩]) = [⟨"t1", 1, false⟩] := by
-  decide
+example : delivered (request ⟨true, some ["t1"]⟩ false
+    [⟨[ins "t1" 1 9 [.int 5], ins "t2" 2 1 []], true, true⟩]) = [insEv "t1" 1 9 none] := by decide
+
+def updDemo : Change :=
+  { table := "t", id := 1, op := .update, oldRowID := 4, newRowID := 5,
+    old := [.int 1, .text "a"], «new» := [.int 2, .text "a"] }
+
+def updDemoEv : Event :=
+  { table := "t", id := 1, op := .update, oldRowId := 4, newRowId := 5,
+    oldRow := some [.int 1, .text "a"], newRow := some [.int 2, .text "a"] }
+
+example : convert ⟨false, none⟩ updDemo = some updDemoEv := by decide
 
 end C27
